@@ -35,6 +35,8 @@ class T:
     def __init__(self, label):
         self.label = label
         self.input_vars = frozenset()  # the opaque leaves mention none of the reduced variables
+        self.inputs = OrderedDict()
+        self.bound = {}
 
     def reduce(self, op, vs):
         return ("reduce", self, op, frozenset(vs))
@@ -58,6 +60,8 @@ class Con(T):
             terms = terms[0]
         self.input_vars = frozenset()
         self.red_op, self.bin_op, self.reduced_vars, self.terms = red_op, bin_op, frozenset(reduced_vars), tuple(terms)
+        # bound names of the enumerated cases are pairwise distinct (the binder-clash cases are contract UnfoldSharedBinders)
+        self.bound = {str(v): None for v in self.reduced_vars}
 
     def key(self):
         return ("Con", self.red_op, self.bin_op, self.reduced_vars, tuple(k(t) for t in self.terms))
